@@ -396,7 +396,7 @@ pub fn run(ctx: &Ctx) -> &'static str {
     ctx.explore(
         "datagrams",
         "structure-aware datagrams (every type code reachable, all SRTLA/SRT types over-weighted, lengths around every parser guard up to 1500, SRTLA ACKs naming held seqs, keepalive echoes verbatim/late/truncated/future/zero/tail-extended, NAKs, SRT ACKs) through the real handle_uplink_packet on 1..3 links in generated states (registering, probing, warming, live, awaiting echo or not, with outstanding seqs or not, client known or not); relay, liveness and delivery-proof oracle; non-trivial = a datagram of a type with a dedicated branch or a length within 1 of a guard",
-        ctx.tier.pick(15_000, 400_000),
+        ctx.tier.pick(60_000, 600_000),
         || strategy(mo),
         |_| check,
     );
